@@ -279,9 +279,35 @@ fn run_list_realtime(obs: &mut Obs, rng: &mut Rng, idx: u64) {
     let scope = Arc::new(Mutex::new(Bucket { objs: objs.clone(), data: HashMap::new(), list_mode: ListMode::Normal, log: vec![] }));
     sim.register(&site, scope.clone());
     obs.case(mix(mix(171, n as u64), mix(max_keys as u64, hostile as u64)));
-    let r = mon::catch(|| s3sim::block_on(false, realtime::list_chunks_in_volume(&site, VolumeIndex::new(vol), max_keys)));
+    // One listing in four has a second listing of the same directory, with another max-keys, in
+    // flight beside it on the same runtime; each must return what its own request asks for.
+    let twin_max: Option<usize> = if rng.chance(1, 4) { Some(*rng.pick(&[1usize, 3, 100, 1000, 54])) } else { None };
+    let mut twin_result: Option<Result<usize, String>> = None;
+    let r = mon::catch(|| match twin_max {
+        None => s3sim::block_on(false, realtime::list_chunks_in_volume(&site, VolumeIndex::new(vol), max_keys)),
+        Some(other) => {
+            let (a, b) = s3sim::block_on(false, async {
+                tokio::join!(realtime::list_chunks_in_volume(&site, VolumeIndex::new(vol), max_keys), realtime::list_chunks_in_volume(&site, VolumeIndex::new(vol), other))
+            });
+            twin_result = Some(b.map(|ids| ids.len()).map_err(|e| format!("{e:?}")));
+            a
+        }
+    });
     sim.unregister(&site);
     let log = scope.lock().map(|s| s.log.clone()).unwrap_or_default();
+    if let (Some(other), Some(res)) = (twin_max, &twin_result) {
+        let want = objs.iter().filter(|o| o.key.starts_with(&prefix)).take(other.min(1000)).count();
+        match res {
+            Ok(n) if *n == want => obs.count("listings_of_one_directory_in_flight_at_once_with_different_max_keys", 1),
+            Ok(n) => obs.violation(
+                "real-time listing: identifier count differs when another listing of the directory is in flight beside it",
+                format!("max-keys {} beside max-keys {}: {} objects within max-keys, {} identifiers", other, max_keys, want, n),
+                json!({"scenario": "realtime-list-twin", "index": idx, "prefix": prefix, "max_keys": [max_keys, other], "requests": log}),
+            ),
+            Err(e) if e.contains("onnect") => {}
+            Err(e) => obs.violation("real-time listing of a well-formed bucket fails", e.clone(), json!({"scenario": "realtime-list-twin", "index": idx, "prefix": prefix, "max_keys": [max_keys, other]})),
+        }
+    }
     let under: Vec<&Obj> = objs.iter().filter(|o| o.key.starts_with(&prefix)).take(max_keys.min(1000)).collect();
     let replay = json!({"scenario": "realtime-list", "index": idx, "prefix": prefix, "max_keys": max_keys, "keys": under.iter().take(30).map(|o| o.key.clone()).collect::<Vec<_>>(), "requests": log});
     match r {
@@ -289,7 +315,7 @@ fn run_list_realtime(obs: &mut Obs, rng: &mut Rng, idx: u64) {
         Ok(Err(e)) if is_connect_error(&e) => obs.skipped_environment(format!("loopback connect failed: {e:?}")),
         Ok(Err(e)) => obs.violation("real-time listing of a well-formed bucket fails", format!("{e:?}"), replay),
         Ok(Ok(ids)) => {
-            let ok_req = log.len() == 1 && {
+            let ok_req = twin_max.is_none() && log.len() == 1 && {
                 let rq = s3sim::parse_url(&log[0].0, 0);
                 rq.bucket == REALTIME_BUCKET && rq.q("prefix") == Some(prefix.as_str()) && rq.q("max-keys") == Some(max_keys.to_string().as_str())
             };
@@ -461,7 +487,25 @@ fn run_download_with(obs: &mut Obs, rng: &mut Rng, idx: u64, big: usize, force_s
         File(Vec<u8>),
         Chunk(ChunkIdentifier, Vec<u8>, bool),
     }
+    // One download in five of a stored object has a second download of the same object in flight
+    // beside it on the same runtime: both return the stored bytes.
+    let twin = status == 200 && rng.chance(1, 5);
+    let mut twin_bytes: Option<Result<Vec<u8>, String>> = None;
     let r = mon::catch(|| {
+        if twin {
+            if let Some(id) = asked_archive.clone() {
+                let (a, b) = s3sim::block_on(false, async { tokio::join!(archive::download_file(id.clone()), archive::download_file(id.clone())) });
+                twin_bytes = Some(b.map(|f| f.data().clone()).map_err(|e| format!("{e:?}")));
+                return a.map(|f| Out::File(f.data().clone()));
+            }
+            let id = asked_chunk.clone().expect("chunk id");
+            let (a, b) = s3sim::block_on(false, async { tokio::join!(realtime::download_chunk(&site, &id), realtime::download_chunk(&site, &id)) });
+            twin_bytes = Some(b.map(|(_, c)| c.data().to_vec()).map_err(|e| format!("{e:?}")));
+            return a.map(|(i, c)| {
+                let start = matches!(c, Chunk::Start(_));
+                Out::Chunk(i, c.data().to_vec(), start)
+            });
+        }
         if let Some(id) = asked_archive.clone() {
             s3sim::block_on(false, archive::download_file(id)).map(|f| Out::File(f.data().clone()))
         } else {
@@ -487,7 +531,18 @@ fn run_download_with(obs: &mut Obs, rng: &mut Rng, idx: u64, big: usize, force_s
             replay.clone(),
         );
     }
-    obs.max("requests_per_download", log.len() as u64);
+    if let Some(tb) = &twin_bytes {
+        match tb {
+            Ok(b) if *b == bytes => obs.count("downloads_of_one_object_in_flight_at_once_byte_identical", 1),
+            Ok(b) => obs.violation("downloaded bytes differ from the stored object when another download of it is in flight", format!("{} vs {} bytes", b.len(), bytes.len()), replay.clone()),
+            Err(e) if e.contains("onnect") => {}
+            Err(_) if !archive_mode && !well_formed_chunk => {}
+            Err(e) => obs.violation("download of a stored object fails when another download of it is in flight", e.clone(), replay.clone()),
+        }
+    }
+    if !twin {
+        obs.max("requests_per_download", log.len() as u64);
+    }
     if !key.is_ascii() {
         obs.count("downloads_of_keys_outside_ascii", 1);
     }
